@@ -520,3 +520,12 @@ package cisco
 //vc:  assert[C18] at "warnings = append(warnings," @everyUnusedRawObjectReported !used
 //vc:  invariant[C18] 4 "for c, used := range isReferenced" @oneWarningPerUnusedObject len(warnings) == unusedSeen
 //vc:  assert[C18] at "sort.Strings(warnings)" @allWarningsKept len(warnings) == unusedSeen
+
+// equalizedGroups: a device object-group that was already bound to (or changed
+// into) a Netspoc group in this run is never compared or changed again - the
+// test comes before the element diff, which looks at the group's original
+// lines and would take an already edited group for an equal one.
+//vc:ghost var grpWasFree bool
+//vc:func (*State).equalizedGroups
+//vc:  assign at "ab := &cmdsPair{aCmds: la, bCmds: lb, key: byOrig}" grpWasFree = !ga.needed
+//vc:  assert[C01] at "ga.needed = true" @deviceGroupChangedOnlyWhileFree grpWasFree
